@@ -1,5 +1,7 @@
 import Mav.Props.C05
 import Mav.Props.C02
+import Mav.Props.C04
+import Mav.Proofs.InitIdx
 /-
   C08 — routing transparency. Property theorems only.
 -/
@@ -45,6 +47,90 @@ theorem hops_identity (H : Bytes → Bytes) (f : Frame) (hwf : WF f) (k : Nat) :
 def CodecConsistent (c : Codec) : Prop :=
   ∀ isV2 p v p', c.decode isV2 p = .ok v → c.encode isV2 v = .ok p' →
     p'.length ≤ 255 ∧ c.decode isV2 p' = .ok v
+
+/-- the codec a dialect holds for a message type: `Read` and `Write` of its initialised ReadWriter -/
+def codecOf (rw : Msg.RW) : Codec := { crcExtra := rw.crcExtra, decode := Msg.decode rw, encode := Msg.encode rw }
+
+theorem zeroVals_length (rw : Msg.RW) : (Msg.zeroVals rw).length = rw.nfields := by simp [Msg.zeroVals]
+
+theorem idxOk_filter (fs : List Msg.DField) (n : Nat) (p : Msg.DField → Bool) (h : Msg.IdxOk fs n) : Msg.IdxOk (fs.filter p) n := by
+  refine ⟨?_, fun f hf => h.2 f (List.mem_filter.mp hf).1⟩
+  have : ((fs.filter p).map (·.index)).Sublist (fs.map (·.index)) := (List.filter_sublist).map _
+  exact this.nodup h.1
+
+theorem encode_len (rw : Msg.RW) (isV2 : Bool) (vals : List Msg.FVal) (p : Bytes) (h : Msg.encode rw isV2 vals = .ok p) :
+    p.length ≤ 255 := by
+  cases isV2 with
+  | true =>
+    simp only [Msg.encode, if_true] at h
+    split at h
+    · rename_i hlen
+      simp only [Msg.EncRes.ok.injEq] at h
+      subst h
+      obtain ⟨k, hk⟩ := Msg.strip_is_zero_suffix
+        ((rw.fields.filter (fun f => true || !f.isExt)).flatMap (fun f => Msg.encField f (Msg.valAt vals f.index)))
+      have h1 := congrArg List.length hk
+      rw [List.length_append] at h1
+      have := rw.sizeExtended.toNat_lt
+      omega
+    · cases h
+  | false =>
+    simp only [Msg.encode, Bool.false_eq_true, if_false] at h
+    split at h
+    · rename_i hlen
+      simp only [Msg.EncRes.ok.injEq] at h
+      subst h
+      have := rw.sizeNormal.toNat_lt
+      omega
+    · cases h
+
+/-- **C08 (the hypothesis of the forwarding theorem holds for every struct `Initialize` accepts).** The value list `Read`
+    returns is well-typed and already canonical (`Msg.decoded_fixed`: strings cut at the first NUL and at the declared length,
+    numbers within their wire width, every field at its own position), so `Write` of it succeeds with at most 255 bytes and
+    `Read` of those gives the same list back — in both versions. -/
+theorem accepted_codec_consistent (st : Msg.GoStruct) (rw : Msg.RW) (h : Msg.init st = .ok rw) :
+    CodecConsistent (codecOf rw) := by
+  have hok : Msg.RWok rw := Msg.rwOk_of_bool rw (InitSound.accepted_never_wraps st rw h)
+  have hidx := InitSound.accepted_idx_ok st rw h
+  intro isV2 p v p' hdec henc
+  simp only [codecOf] at hdec henc ⊢
+  refine ⟨encode_len rw isV2 v p' henc, ?_⟩
+  cases isV2 with
+  | true =>
+    rw [Msg.decode_v2_eq] at hdec
+    cases hf : Msg.decFields rw.fields (Msg.padded rw p) (Msg.zeroVals rw) with
+    | none => rw [hf] at hdec; cases hdec
+    | some v0 =>
+      rw [hf] at hdec
+      simp only [Msg.resOf, Msg.DecRes.ok.injEq] at hdec
+      subst hdec
+      obtain ⟨hwt, hfix⟩ := Msg.decoded_fixed rw.fields (Msg.zeroVals rw) _ v0 (by rw [zeroVals_length]; exact hidx) hf
+      obtain ⟨q, hq, hdq⟩ := C04.roundtrip_v2 rw hok v0 hwt
+      rw [henc] at hq
+      simp only [Msg.EncRes.ok.injEq] at hq
+      subst hq
+      rw [hdq]
+      simp only [C04.canonV2, Msg.DecRes.ok.injEq]
+      exact hfix
+  | false =>
+    simp only [Msg.decode, Bool.false_eq_true, if_false] at hdec
+    split at hdec
+    · cases hdec
+    · cases hf : Msg.decFields (rw.fields.filter (fun f => !f.isExt)) p (Msg.zeroVals rw) with
+      | none => rw [hf] at hdec; cases hdec
+      | some v0 =>
+        rw [hf] at hdec
+        simp only [Msg.resOf, Msg.DecRes.ok.injEq] at hdec
+        subst hdec
+        obtain ⟨hwt, hfix⟩ := Msg.decoded_fixed (rw.fields.filter (fun f => !f.isExt)) (Msg.zeroVals rw) p v0
+          (by rw [zeroVals_length]; exact idxOk_filter _ _ _ hidx) hf
+        obtain ⟨q, hq, _, hdq⟩ := C04.roundtrip_v1_base rw hok v0 hwt
+        rw [henc] at hq
+        simp only [Msg.EncRes.ok.injEq] at hq
+        subst hq
+        rw [hdq]
+        simp only [C04.canonV1, Msg.DecRes.ok.injEq]
+        exact hfix
 
 /-- **C08 (dialect: forwarded frame stays valid).** Let the reader, with a dialect, accept a well-formed frame and return
     `f'` (decoded message, checksum made consistent with the canonical re-encoding — `fix: keep the checksum of a
@@ -140,6 +226,16 @@ theorem forward_dialect_valid (cfg : RCfg) (d : UInt32 → Option Codec) (hd : c
               exact this
             · have hcrc' : ¬ ((X25.sum (V2Frame.crcInput { incompat := ic, compat := cf, seq := seq, sys := sys, comp := comp, msg := .raw id p', crc := crc, linkId := link, ts := ts, sig := sig } p' ++ [c.crcExtra]) != crc) = true) := hcrc
               simp [dialectGate, hd, hc, ho, Frame.msg, Frame.genChecksum, Frame.crc, Frame.isV2, hdec, henc, hcrc']
+
+/-- **C08 (dialect, no assumption on the codec).** The forwarding theorem for the codec of ANY message struct `Initialize`
+    accepts: `CodecConsistent` is discharged by `accepted_codec_consistent`. -/
+theorem forward_dialect_valid_accepted (cfg : RCfg) (d : UInt32 → Option Codec) (hd : cfg.dialect = some d) (ho : cfg.specWindow = false)
+    (wd : UInt32 → Option WCodec) (f f' : Frame) (hwf : WF f) (id : UInt32) (p : Bytes) (hm : f.msg = .raw id p)
+    (st : Msg.GoStruct) (rw : Msg.RW) (hinit : Msg.init st = .ok rw) (hc : d id = some (codecOf rw))
+    (wc : WCodec) (hwc : wd id = some wc) (hsame : wc.encode = (codecOf rw).encode)
+    (hg : dialectGate cfg f = .frame f') :
+    ∃ f2, WF f2 ∧ frameWrite (some wd) f' = .ok (specBytes f2, f2) ∧ dialectGate cfg f2 = .frame f' :=
+  forward_dialect_valid cfg d hd ho wd f f' hwf id p hm (codecOf rw) hc (accepted_codec_consistent st rw hinit) wc hwc hsame hg
 
 /-- **C08 (FixFrame).** After `Node.FixFrame` succeeds the frame carries the checksum of its (re-encoded) payload and,
     for a v2 frame on a node with an outgoing key, the signature of its signed bytes under that key. -/
